@@ -166,8 +166,44 @@ def gen_site_set(rng):
         o["id"] = 7001 + i
         same_sig_same_level = sum(1 for x in ovs if x["level"] == o["level"] and x["ov"] == o["ov"] and x["tag"] == o["tag"])
         o["forward"] = same_sig_same_level == 1 and rng.random() < 0.3
-        o["late"] = o["forward"] and o["level"] == 0 and rng.random() < 0.4
+        # (a forward declaration that is still pending is invisible to the inner lookups of the library's dynamic
+        # overloads, which the candidate listing cannot reproduce: pending forwards only under the user-only name)
+        o["late"] = o["forward"] and o["level"] == 0 and name == "fo" and rng.random() < 0.5
+    # the enclosing functions are generic themselves; nested overloads reuse (shadow) those names, or not
+    outer_gens = rng.sample(["T", "U", "Q"], rng.choice([0, 1, 1, 2]))
+    wrap_gens = rng.sample(["T", "U", "Q", "W"], rng.choice([0, 1, 1, 2]))
+    for o in ovs:
+        if o["level"] >= 1 and o["ov"][0] and rng.random() < 0.5:
+            o["ov"] = rename_generics(rng, o["ov"], outer_gens + (wrap_gens if o["level"] == 2 else []))
+    ovs[0]["encl"] = (outer_gens, wrap_gens)
     return name, args, nlevels, ovs
+
+
+def rename_generics(rng, ov, enclosing):
+    """rename the generic parameters of an overload injectively: onto names of the enclosing functions' generics when
+    there are any (shadowing), otherwise onto fresh names"""
+    gens, ps, nreq = ov
+    pool = sorted(set(enclosing)) + ["Aa", "Bb", "Cc"]
+    rng.shuffle(pool)
+    pool.sort(key=lambda g: 0 if g in enclosing else 1)
+    if rng.random() < 0.3:
+        pool = [g for g in pool if g not in enclosing]
+    ren = dict(zip(gens, pool))
+    return (tuple(sorted(ren[g] for g in gens)), tuple(rename(p_, ren) for p_ in ps), nreq)
+
+
+def alpha_variant(rng, ovs):
+    """the same set with the generics of the nested overloads renamed (same tags, levels, forwards): the outcome must not change.
+    Copies of one signature on one level are renamed alike (a forward declaration and its implementation are one text here)"""
+    outer_gens, wrap_gens = ovs[0]["encl"]
+    out = []
+    for o in ovs:
+        o2 = dict(o)
+        if o["level"] >= 1 and o["ov"][0]:
+            o2["ov"] = rename_generics(rng, o["ov"], outer_gens + (wrap_gens if o["level"] == 2 else []))
+        out.append(o2)
+    out[0]["encl"] = ovs[0]["encl"]
+    return out
 
 
 def site_program(name, args, nlevels, ovs, site, site_stmt):
@@ -197,9 +233,14 @@ def site_program(name, args, nlevels, ovs, site, site_stmt):
             return f"{indent}fn sib()->int{{ {site_stmt} 0 }}\n"
         return ""
     out += level_text(0, "")
-    out += "fn outer()->int{\n" + level_text(1, "  ")
+    outer_gens, wrap_gens = ovs[0]["encl"]
+
+    def header(fname, gens, prefix):
+        g = ("<" + ", ".join(gens) + ">") if gens else ""
+        return f"fn {fname}{g}({', '.join(f'{prefix}{i}: {x}' for i, x in enumerate(gens))})->int{{\n"
+    out += header("outer", outer_gens, "q") + level_text(1, "  ")
     if nlevels == 3:
-        out += "  fn wrap()->int{\n" + level_text(2, "    ") + site_text("    ") + "    0\n  }\n"
+        out += "  " + header("wrap", wrap_gens, "w") + level_text(2, "    ") + site_text("    ") + "    0\n  }\n"
     else:
         out += site_text("  ")
     out += "  0\n}\n"
@@ -283,6 +324,13 @@ def run_sites(chk, rng, quick):
         for site in SITES:
             p, host = site_program(name, args, nlevels, ovs, site, stmt)
             progs.append((name, args, nlevels, ovs, site, p, wantc, site_model_line(name, args, nlevels, ovs, site, host, lib)))
+        # alpha-renaming of the nested overloads' generics (also onto the enclosing functions' generic names)
+        if any(o["level"] >= 1 and o["ov"][0] for o in ovs):
+            ovs2 = alpha_variant(rng, ovs)
+            for site in ("after", "own-body"):
+                p, host = site_program(name, args, nlevels, ovs2, site, stmt)
+                progs.append((name, args, nlevels, ovs2, "alpha:" + site, p, wantc,
+                              site_model_line(name, args, nlevels, ovs2, site, host, lib)))
     resps = run_harness([{"op": "run", "src": x[5], "compile_only": True} for x in progs], per_req_timeout=30.0)
     mres = run_model([x[7] for x in progs])
     first = {}
@@ -293,6 +341,9 @@ def run_sites(chk, rng, quick):
         if any(o["forward"] for o in ovs): chk.count("site:with-forward-declaration")
         if any(o["late"] for o in ovs): chk.count("site:with-pending-outer-forward")
         if len({o["tag"] for o in ovs}) < len(ovs): chk.count("site:identical-signature-across-levels")
+        eg = set(ovs[0]["encl"][0]) | set(ovs[0]["encl"][1])
+        if eg: chk.count("site:generic-enclosing-function")
+        if any(o["level"] >= 1 and set(o["ov"][0]) & eg for o in ovs): chk.count("site:nested-generic-shadows-enclosing")
         replay = {"op": "run", "src": p, "compile_only": True, "site": site, "model": mline}
         c = resp.get("compile")
         if c is None:
@@ -320,7 +371,7 @@ def run_sites(chk, rng, quick):
             if mtag != [wantc[1]]:
                 chk.violation("tie:ovl:resolve_at", f"model picks {gm} ({mtag}), implementation and oracle {wantc[1]}: {p!r}",
                               dict(replay, model_out=gm), no_input=True)
-        key = id(ovs)
+        key = (name, tuple(o["id"] for o in ovs), tuple(tstr(t) for t, _ in args), id(args))
         if key in first and first[key] != got:
             chk.violation(f"meta:site:{site}", f"the outcome depends on where the call is written: {first[key]} after the declarations, "
                           f"{got} at '{site}': {p!r}", replay)
